@@ -142,6 +142,23 @@ impl TypeResolver {
         }
     }
 
+    /// Extract the element type T from a fixed-size array `[T; N]` or a slice `[T]`
+    fn extract_array_element_type(&self, rust_type: &str) -> Option<String> {
+        let inner = rust_type.strip_prefix('[')?.strip_suffix(']')?;
+        // The length follows the last `;` outside any nested array, tuple or generic arguments
+        let mut depth = 0;
+        let mut element_end = inner.len();
+        for (i, ch) in inner.char_indices() {
+            match ch {
+                '[' | '(' | '<' => depth += 1,
+                ']' | ')' | '>' => depth -= 1,
+                ';' if depth == 0 => element_end = i,
+                _ => {}
+            }
+        }
+        Some(inner[..element_end].trim().to_string())
+    }
+
     /// Extract types from tuple (T1, T2, ...)
     fn extract_tuple_types(&self, rust_type: &str) -> Option<Vec<String>> {
         if rust_type.starts_with('(') && rust_type.ends_with(')') {
@@ -246,6 +263,11 @@ impl TypeResolver {
             .or_else(|| self.extract_btreeset_inner_type(cleaned))
         {
             return TypeStructure::Set(Box::new(self.parse_type_structure(&inner_type)));
+        }
+
+        // Handle fixed-size arrays [T; N] and slices [T] -> Array(T)
+        if let Some(element_type) = self.extract_array_element_type(cleaned) {
+            return TypeStructure::Array(Box::new(self.parse_type_structure(&element_type)));
         }
 
         // Handle tuple types (T1, T2, ...) -> Tuple([T1, T2, ...])
